@@ -951,3 +951,33 @@ pub fn res_bits(r: &IndicatorResult) -> Vec<u64> {
 	}
 	o
 }
+
+// ---------------------------------------------------------------- content hashes (distinct-case accounting, rep::Report::case)
+fn fold(h: u64, x: u64) -> u64 {
+	let mut z = (h ^ x).wrapping_add(0x9E37_79B9_7F4A_7C15);
+	z = (z ^ (z >> 30)).wrapping_mul(0xBF58_476D_1CE4_E5B9);
+	z = (z ^ (z >> 27)).wrapping_mul(0x94D0_49BB_1331_11EB);
+	z ^ (z >> 31)
+}
+pub fn words_hash(ws: impl IntoIterator<Item = u64>) -> u64 {
+	ws.into_iter().fold(0x1357_9BDF_0246_8ACE, fold)
+}
+pub fn f64s_hash(xs: &[f64]) -> u64 {
+	words_hash(xs.iter().map(|x| x.to_bits()))
+}
+pub fn candle_hash(c: &Candle) -> u64 {
+	words_hash([vbits(c.open), vbits(c.high), vbits(c.low), vbits(c.close), vbits(c.volume)])
+}
+pub fn candles_hash(cs: &[Candle]) -> u64 {
+	words_hash(cs.iter().map(candle_hash))
+}
+pub fn ins_hash(xs: &[In]) -> u64 {
+	words_hash(xs.iter().map(|x| match x {
+		In::V(v) => vbits(*v),
+		In::P(a, b) => fold(vbits(*a), vbits(*b)),
+		In::C(c) => candle_hash(c),
+	}))
+}
+pub fn json_hash(v: &Value) -> u64 {
+	crate::rng::hash_str(&v.to_string())
+}
